@@ -1,1 +1,79 @@
-/-! STUB — property C05 is not built yet. -/
+import Martian.Lemmas.Proxy
+import Martian.Lemmas.ProxyTrace
+import Martian.Lemmas.ProxyState
+/-!
+C05 — MITM never downgrades and treats every tunnelled request as secure.
+The model threads, per connection, `secure` (session flag), `connTls` (the connection argument each
+`handle` call receives is the decrypted one) and `sessTls` (what a hijacker is handed). Proved for
+every script: after a served MITM CONNECT whose tunnel starts with a TLS handshake, every later
+request of that connection - the first and the N-th alike - is presented as https on a secure
+session with TLS state attached, goes upstream over TLS, and a hijacker gets the decrypted
+connection; before any such CONNECT (and inside a tunnel that carries plain HTTP) everything is
+plain. TLS itself (handshake, certificates) is trusted; see C06 for the certificate logic.
+-/
+namespace Martian.Props.C05
+open Martian.Proxy
+
+variable (sd : Bool) (base : Nat) (items : List Item)
+
+/-- What the request modifier sees for a request handled in state `s`. -/
+theorem reqmod_reflects_state (s : St) (i c : Nat) (it : Item) :
+    Ev.reqmod i c (s.secure || s.connTls) (s.secure || s.connTls) s.connTls ∈ (handleItem sd s i c it).1 := by
+  item_cases it
+
+/-- Every request decrypted from a TLS MITM tunnel (any index after the CONNECT) is presented with
+scheme https, a secure session and TLS state attached. -/
+theorem every_decrypted_request_is_https_secure_with_tls (j k : Nat) (rq : ReqB) (rs : ResB) (s' : St) (it : Item)
+    (hj : items[j]? = some (.connectMitm true rq rs)) (hjk : j < k)
+    (h : at? sd base {} 0 items k = some (s', it)) :
+    Ev.reqmod k (base + k) true true true ∈ runConn sd base items := by
+  have hsec := at?_after_mitm sd base {} 0 items j k s' it rq rs (by omega) hjk (by simpa using hj) h
+  obtain ⟨h1, h2, h3⟩ := hsec
+  have := reqmod_reflects_state sd s' k (base + k) it
+  rw [h1, h2] at this
+  exact mem_run_of_at? sd base {} 0 [] items k s' it h _ (by simpa using this)
+
+/-- … and is forwarded upstream over TLS, never in cleartext: every upstream event of such a request
+carries `tls = true`; a hijacker inside the tunnel is handed the decrypted connection. -/
+theorem upstream_over_tls_and_hijack_decrypted (j k : Nat) (rq : ReqB) (rs : ResB) (s' : St) (it : Item)
+    (hj : items[j]? = some (.connectMitm true rq rs)) (hjk : j < k)
+    (h : at? sd base {} 0 items k = some (s', it)) :
+    (∀ t, Ev.upstream k t ∈ (handleItem sd s' k (base + k) it).1 → t = true) ∧
+    (∀ t, Ev.hijacked k t ∈ (handleItem sd s' k (base + k) it).1 → t = true) := by
+  have hsec := at?_after_mitm sd base {} 0 items j k s' it rq rs (by omega) hjk (by simpa using hj) h
+  obtain ⟨h1, h2, h3⟩ := hsec
+  constructor <;> intro t <;> item_cases it then (try (intro ht; simp_all))
+
+/-- The security state never degrades: once secure, every later request of the connection is. -/
+theorem secure_state_is_sticky (s s' : St) (i k : Nat) (l : List Item) (it : Item)
+    (hs : Sec s) (h : at? sd base s i l k = some (s', it)) : Sec s' :=
+  at?_sec sd base s i l k s' it hs h
+
+/-- Before any TLS MITM CONNECT - in particular on a plain connection, after a blind CONNECT failure,
+and inside a MITM tunnel that does not start with a TLS handshake - requests are plain HTTP on an
+insecure session. -/
+theorem non_tls_traffic_is_plain_insecure (k : Nat) (s' : St) (it : Item)
+    (hno : ∀ j, j < k → ∀ x, items[j]? = some x → isTlsMitm x = false)
+    (h : at? sd base {} 0 items k = some (s', it)) :
+    Ev.reqmod k (base + k) false false false ∈ runConn sd base items := by
+  have hp : Plain s' := at?_plain sd base {} 0 items k s' it ⟨rfl, rfl, rfl⟩ (by simpa using hno) h
+  obtain ⟨h1, h2, h3⟩ := hp
+  have := reqmod_reflects_state sd s' k (base + k) it
+  rw [h1, h2] at this
+  exact mem_run_of_at? sd base {} 0 [] items k s' it h _ (by simpa using this)
+
+/-- The CONNECT request itself is answered 200 through the response modifier and the loop goes on on
+the same connection (same session): the machine stays in `again`. -/
+theorem connect_then_tunnel_same_connection (s : St) (i c : Nat) (tls : Bool) :
+    (handleItem sd s i c (.connectMitm tls .pass .pass)).2.isAgain = true ∧
+      Ev.write i 200 false true ∈ (handleItem sd s i c (.connectMitm tls .pass .pass)).1 := by
+  cases tls <;> simp [handleItem, handleMitm, pre, rqErr, Next.isAgain]
+
+/-! Non-vacuity (tests): three requests inside one TLS tunnel, the last one hijacks. -/
+example : (runConn false 0 [.connectMitm true .pass .pass, .x false .pass .pass (.ok 200 false),
+      .x false .pass .pass (.ok 200 false), .x false .hijack .pass (.ok 200 false)]).filter
+      (fun e => match e with | .reqmod _ _ _ _ _ => true | .hijacked _ _ => true | _ => false)
+    = [.reqmod 0 0 false false false, .reqmod 1 1 true true true, .reqmod 2 2 true true true,
+       .reqmod 3 3 true true true, .hijacked 3 true] := by decide
+
+end Martian.Props.C05
